@@ -81,6 +81,9 @@ def carried_verbatim(t: t.Any) -> bool:
             break
         try:
             t = inspection.unwrap(refs.evaluate(t))
+        except RecursionError:
+            # Out of stack is no answer (and what we say here ends up in a memoised codec).
+            raise
         except Exception:  # noqa: BLE001 - unresolvable: the routines will say so.
             return False
     return inspection.isbytestype(t)
